@@ -38,7 +38,12 @@ Inductive case :=
          (panicked : bool)
          (t : call_trace)                       (* what the stubs, jars and redirect policies recorded, and how the call ended *)
          (ctx : nat)                            (* whose context reached the round tripper *)
-| CSeq (reg : registry) (default_mt : bytes) (calls : list seq_call).
+| CSeq (reg : registry) (default_mt : bytes) (calls : list seq_call)
+| CCtx (op rt : option ctx_cfg)                 (* the operation's and the runtime's context: absent, or with deadline rank / cancelled beforehand *)
+       (timeout : nat)                          (* the request timeout as a deadline rank; 0 none *)
+       (action : nat)                           (* cancelled while the round tripper holds the request: 0 nothing, 1 the operation context, 2 the runtime context *)
+       (panicked : bool)
+       (s : ctx_seen).                          (* whose value and which deadline the round tripper saw, whether the request context ended, whether Submit failed *)
 
 Definition origin_code (o : origin) : nat :=
   match o with FromOperation => 0 | FromTransport => 1 | Background => 2 end.
@@ -108,4 +113,7 @@ Definition check_case (c : case) : N :=
             (negb panicked && ctx_ok && right_client op rt slow t)
   | CSeq reg d calls =>
     verdict (forallb (seq_corr reg d) calls) (forallb (seq_prop reg) calls)
+  | CCtx op rt timeout action panicked s =>
+    verdict (negb panicked && seen_eqb s (submit_context op rt timeout action))
+            (negb panicked && right_context op rt timeout action s)
   end.
